@@ -74,6 +74,7 @@ func (c *conn) serveRequests() error {
 	requestID := 0
 	for {
 		requestID++
+		verifPoint("loop.head", c.connID, requestID)
 		w, err := newResponseWriter(c.writer, &c.writerMu, c.logger, c.connID, requestID)
 		if err != nil {
 			return fmt.Errorf("%s: %w", op, err)
@@ -81,6 +82,7 @@ func (c *conn) serveRequests() error {
 
 		select {
 		case <-c.shutdownCtx.Done():
+			verifPoint("loop.shutdown", c.connID, requestID)
 			c.logger.Debug("received shutdown cancellation", "op", op, "conn", c.connID, "requestID", w.requestID)
 			// build a request by hand, since this is not a normal situation
 			// where we've read a request... and we need to make this check
@@ -105,18 +107,21 @@ func (c *conn) serveRequests() error {
 		}
 		r, err := c.readRequest(w.requestID)
 		if err != nil {
+			verifPoint("loop.readerr", c.connID, requestID)
 			if errors.Is(err, io.EOF) || errors.Is(err, io.ErrUnexpectedEOF) || strings.Contains(err.Error(), "unexpected EOF") {
 				return nil // connection is closed
 			}
 			return fmt.Errorf("%s: error reading request: %w", op, err)
 		}
 
+		verifPoint("loop.read", c.connID, requestID)
 		switch {
 		// TODO: rate limit in-flight requests per conn and send a
 		// BusyResponse when the limit is reached.  This limit per conn
 		// should be configurable
 
 		case r.routeOp == unbindRouteOperation:
+			verifPoint("loop.unbind", c.connID, requestID)
 			// support an optional unbind route
 			if c.router.unbindRoute != nil {
 				c.router.unbindRoute.handler()(w, r)
@@ -129,11 +134,16 @@ func (c *conn) serveRequests() error {
 		// any other requests.
 		// see: https://datatracker.ietf.org/doc/html/rfc4511#section-4.14.1
 		case r.extendedName == ExtendedOperationStartTLS:
+			verifPoint("loop.inline", c.connID, requestID)
 			c.router.serve(w, r)
+			verifPoint("loop.inlinedone", c.connID, requestID)
 		default:
 			c.requestsWg.Add(1)
+			verifPoint("loop.spawn", c.connID, requestID)
 			go func() {
+				verifPoint("req.start", c.connID, w.requestID)
 				defer func() {
+					verifPoint("req.done", c.connID, w.requestID)
 					c.logger.Debug("requestsWg done", "op", op, "conn", c.connID, "requestID", w.requestID)
 					c.requestsWg.Done()
 				}()
@@ -202,12 +212,14 @@ func (c *conn) initConn(netConn net.Conn) error {
 	c.netConn = netConn
 	c.reader = bufio.NewReader(c.netConn)
 	c.writer = bufio.NewWriter(c.netConn)
+	verifPoint("conn.init", c.connID, 0)
 	return nil
 }
 
 func (c *conn) close() error {
 	const op = "gldap.(Conn).close"
 	c.requestsWg.Wait()
+	verifPoint("conn.netclose", c.connID, 0)
 	if err := c.netConn.Close(); err != nil {
 		return fmt.Errorf("%s: error closing conn: %w", op, err)
 	}
